@@ -162,7 +162,7 @@ def _measure(symbols):
 
 def _mods(tier):
     out = [dict(kind='BPSK', M=2)]
-    out += [dict(kind='PSK', M=M) for M in (4, 8, 16, 32, 64)]
+    out += [dict(kind='PSK', M=M) for M in (2, 4, 8, 16, 32, 64)]
     out += [dict(kind='QAM', M=M) for M in (4, 16, 64, 256, 1024)]
     if tier != 'quick':
         out += [dict(kind='PSK', M=M) for M in (128, 256, 1024)]
@@ -502,8 +502,11 @@ class Constellation(Harness):
         if cfg['kind'] == 'QAM':
             want = 1 - (1 - N / 4 * E)**2
         elif cfg['kind'] == 'PSK':
-            ctx.prove('constellation-neighbours', SReal(N) == 2)
-            want = N / 2 * E
+            # two nearest neighbours (for M = 2 they are the same point and
+            # the bound 2 Q(.) is exactly twice the exact rate)
+            ctx.prove('constellation-neighbours',
+                      SReal(N) == (2 if cfg['M'] > 2 else 1))
+            want = E
         else:
             want = N / 2 * E
         ctx.prove('constellation-multiplicity',
